@@ -11,7 +11,8 @@ ENGINE = b"\x80\x00\x1f\x88\x80verifeng"
 OTHER_ENGINE = b"\x80\x00\x1f\x88\x80otherengine"
 STRUCT = ["flags0_plain", "flags0_plain_keepdigest", "flags4_plain", "auth_only_plain", "empty_digest", "short_digest", "zero_digest", "garbage_digest",
           "foreign_key_sign", "foreign_user", "foreign_engine", "wrong_localisation", "priv_flag_plain", "nopriv_flag_cipher", "flags2_cipher", "flags6_cipher",
-          "report_unauth_evil", "report_unauth_stats", "report_stale_mac", "digest_into_zero_run", "truncate_tail", "swap_pdu_keep_mac", "replay_other_reqid"]
+          "report_unauth_evil", "report_unauth_stats", "report_stale_mac", "digest_into_zero_run", "truncate_tail", "swap_pdu_keep_mac", "replay_other_reqid",
+          "flags2_malleate", "flags6_malleate", "flags3_malleate_keepdigest"]
 
 
 def result_repr(op, r):
@@ -108,6 +109,17 @@ def forge(kind, ag, u, xu, req, authentic: bytes, bit=None):
     if kind in ("flags2_cipher", "flags6_cipher"):      # priv bit without auth bit, attacker-chosen "ciphertext"
         fl = 2 if kind == "flags2_cipher" else 6
         return msg(fl, b"", enc_str(stream(xu.kpriv(ag.engine), b"saltsalt", scoped(pdu()))), salt=b"saltsalt"), S(auth=False, priv=True, form="enc", ekey="Kx", mac="empty")
+    if kind in ("flags2_malleate", "flags6_malleate", "flags3_malleate_keepdigest"):
+        # ciphertext malleability: flip one bit of the authentic ciphertext (stream / CFB ciphers pass it through to the plaintext)
+        # and drop the authentication flag so that no digest would be checked
+        if not priv:
+            b = bytearray(authentic)
+            b[-1] ^= 1
+            return bytes(b), dict(bitflip=True)
+        ct = bytearray(a["cipher"])
+        ct[-1] ^= 1
+        fl = {"flags2_malleate": 2, "flags6_malleate": 6, "flags3_malleate_keepdigest": 3}[kind]
+        return msg(fl, a["auth"] if fl == 3 else b"", enc_str(bytes(ct)), salt=a["priv"]), dict(bitflip=True)
     if kind == "report_unauth_evil":
         return msg(0, b"", scoped(pdu(REPORT))), S(auth=False, priv=False, form="plain", ekey="-", mac="empty", ptype="Report")
     if kind == "report_unauth_stats":
